@@ -44,7 +44,11 @@ RULE = ('cases: REL/RELA tables (both classes, byte orders, MIPS64, 0..many entr
         'dynamic images where [DT_REL[A], +SZ) contains / abuts / partially overlaps / equals / lies inside [DT_JMPREL, '
         '+DT_PLTRELSZ) (same flavour), each table being what its own tags say; relocatable objects with 0xfeff / 0xff00 / more '
         'section headers (e_shnum = 0, count in sh_size of header 0; SHT_NULL filler before or after the real sections) '
-        'whose .rel/.rela.debug_info must still be found and applied; relocation application '
+        'whose .rel/.rela.debug_info must still be found and applied; symbols of every STT_* type / binding / section '
+        'index and odd values (ARM Thumb function symbols); ~45 e_machine values outside the supported set (known and '
+        'unknown numbers) whose debug relocations must be rejected, not skipped; stripped files linked by '
+        '.gnu_debuglink (valid / bad CRC, own .debug_info present) to a relocatable debug file, both flags; '
+        'relocation application '
         'on synthesized relocatable images for every (machine, flavour, type) with random S/A/V, overlapping and boundary '
         'offsets, error classes, relocation on/off, via get_dwarf_info and via RelocationHandler. distinct = hash(kind, '
         'abstract); non-trivial = at least one entry/word/relocation or an error case')
@@ -615,6 +619,78 @@ def gen_apply_many(ctx, cases):
                                      data, symvals, [[name, 4 if rela else 9, rela, ents, 1]]]))
 
 
+def _sym_vals(symvals):
+    """symbol table entries are st_value, or [st_value, st_info type, st_info bind, st_shndx]"""
+    return [v if isinstance(v, int) else v[0] for v in symvals]
+
+
+def gen_apply_symtypes(ctx, cases):
+    """S is the symbol's st_value whatever its type / binding / section: symbols of every STT_* (FUNC, OBJECT, SECTION,
+    TLS, GNU_IFUNC, processor specific), odd values (ARM Thumb functions have bit 0 set), local/global/weak"""
+    rng = ctx.rng
+    reps = ctx.scale(12, 120)
+    for em in [40, 40, 40, 3, 62, 183, 8, 21, 22, 258]:
+        for _ in range(reps):
+            for _try in range(10):
+                le, is64, rela, data, symvals, ents = gen_apply_case(rng, em)
+                if ents and len(symvals) > 1:
+                    break
+            bits = 64 if is64 else 32
+            syms = [symvals[0]]
+            for v in symvals[1:]:
+                c = rng.randrange(6)
+                if c == 0:
+                    v |= 1
+                elif c == 1:
+                    v = rng.choice([(1 << bits) - 1, 0x8001, 1, 0x10001])
+                typ = rng.choice([2, 2, 2, 0, 1, 3, 4, 6, 10, 13])       # FUNC thrice as often
+                syms.append([v, typ, rng.choice([0, 1, 2]), rng.choice([1, 2, 0xfff1, 0])])
+            ents = [[e[0], rng.randrange(1, len(syms)) if rng.random() < 0.8 else e[1]] + e[2:] for e in ents]
+            name = ('.rela' if rela else '.rel') + '.debug_info'
+            gap = bytes(rng.randrange(1, 256) for _ in range(rng.choice([0, 1, 3])))
+            cases.append(('apply', [em, le, is64, True, rng.choice(['dwarfinfo', 'handler']), data, syms,
+                                    [[name, 4 if rela else 9, rela, ents, 1]], gap]))
+
+
+# machines outside the property's list for which the library has no recipe at all (certified per case by the
+# driver: model_no_family): every relocation of their debug sections must be REJECTED, never skipped
+OTHER_MACHINES = [2, 4, 5, 6, 7, 10, 15, 18, 19, 20, 20, 23, 36, 42, 43, 45, 50, 53, 75, 83, 88, 92, 93, 94, 105, 106,
+                  113, 135, 140, 164, 185, 189, 195, 224, 243, 243, 244, 251, 252, 0, 1, 0x1234, 0xfeba, 0xffff, 9, 11]
+
+
+def gen_apply_unlisted(ctx, cases):
+    rng = ctx.rng
+    for em in OTHER_MACHINES:
+        for _ in range(ctx.scale(2, 12)):
+            le, is64, rela, data, symvals, ents = gen_apply_case(rng, em, rng.choice([None, None, None, 'symidx']))
+            if not ents and rng.random() < 0.8:
+                ents = [[rng.randrange(0, max(len(data) - 8, 1)), rng.randrange(len(symvals)),
+                         rng.choice([1, 2, 3, 10, 21, 57, 255]), _rand_signed(rng, 32) if rela else 0, 0, 0, 0]]
+            name = ('.rela' if rela else '.rel') + '.debug_info'
+            relocate = rng.random() < 0.9
+            cases.append(('apply', [em, le, is64, relocate, rng.choice(['dwarfinfo', 'handler']), data, symvals,
+                                    [[name, 4 if rela else 9, rela, ents, 1]], b'']))
+
+
+def gen_apply_link(ctx, cases):
+    """a stripped file whose .gnu_debuglink names a separate RELOCATABLE debug file (foo.ko -> foo.ko.debug):
+    get_dwarf_info(relocate_dwarf_sections=flag) with both flags; shape = 'linked' | 'own' (the file has its own
+    .debug_info as well: the link is not followed) | 'badcrc'"""
+    rng = ctx.rng
+    for em in [62, 62, 3, 40, 183, 8, 258, 21, 22]:
+        for _ in range(ctx.scale(4, 40)):
+            for _try in range(10):
+                le, is64, rela, data, symvals, ents = gen_apply_case(rng, em)
+                if ents:
+                    break
+            name = ('.rela' if rela else '.rel') + '.debug_info'
+            shape = rng.choice(['linked'] * 6 + ['own', 'badcrc'])
+            fname = rng.choice(['a', 'ab', 'abc', 'mod.ko.debug', 'x/y.debug', 'libfoo-1.2.so.dbg'])
+            for flag in (True, False):
+                cases.append(('apply_link', [em, le, is64, flag, data, symvals, [[name, 4 if rela else 9, rela, ents, 1]],
+                                             shape, fname]))
+
+
 def gen(ctx):
     cases = []
     gen_tables(ctx, cases)
@@ -626,6 +702,9 @@ def gen(ctx):
     gen_zero_entries(ctx, cases)
     gen_dyn_overlap(ctx, cases)
     gen_apply_many(ctx, cases)
+    gen_apply_symtypes(ctx, cases)
+    gen_apply_unlisted(ctx, cases)
+    gen_apply_link(ctx, cases)
     return cases
 
 
@@ -679,17 +758,20 @@ def evaluate(ctx, cases):
             w.h_wf = b1.add(['rents_wf', is64, mips64, rela, ents])
             w.h_spec = b1.add(['spec_hist_rel', is64, mips64, rela, ents, hist])
             w.h_hok = b1.add(['hist_ok', True, len(ents), hist])
-        elif kind in ('apply', 'apply_seq', 'apply_many'):
+        elif kind in ('apply', 'apply_seq', 'apply_many', 'apply_link'):
             if kind == 'apply':
                 em, le, is64, relocate, via, data, symvals, rsecs, gap = a
             elif kind == 'apply_many':
                 em, le, is64, nfill, place, relocate, via, data, symvals, rsecs = a
+            elif kind == 'apply_link':
+                em, le, is64, relocate, data, symvals, rsecs, shape, fname = a
             else:
                 em, le, is64, calls, data, symvals, rsecs, gap = a
             mips64 = is64 and em == EM['MIPS']
             w.h_rs = [b1.add(['enc_table', le, is64, mips64, r[2], r[3]]) for r in rsecs]
             w.h_rwf = [b1.add(['rents_wf', is64, mips64, r[2], r[3]]) for r in rsecs]
-            w.h_syms = [b1.add(['enc_sym', le, is64, 0, v]) for v in symvals]
+            w.h_syms = [b1.add(['enc_sym', le, is64, 0, v]) if isinstance(v, int) else
+                        b1.add(['enc_sym_t', le, is64, 0, v[0], v[1], v[2], v[3]]) for v in symvals]
         elif kind == 'dyn_overlap':
             le, is64, em, rela, ents, m, j, shape, via, order = a
             mips64 = is64 and em == EM['MIPS']
@@ -764,10 +846,13 @@ def evaluate(ctx, cases):
             else:
                 w.img, w.off = data + b'\x77' * 3, 0
             w.h_model = b2.add(['model_relr', le, is64, w.img, w.off, len(data), entsize])
-        elif kind in ('apply', 'apply_seq', 'apply_many'):
+        elif kind in ('apply', 'apply_seq', 'apply_many', 'apply_link'):
             k0 = 0          # index shift of the real sections (filler headers in front of them)
             if kind == 'apply':
                 em, le, is64, relocate, via, data, symvals, rsecs, gap = a
+            elif kind == 'apply_link':
+                em, le, is64, relocate, data, symvals, rsecs, shape, fname = a
+                gap = b'\x42'
             elif kind == 'apply_many':
                 em, le, is64, nfill, place, relocate, via, data, symvals, rsecs = a
                 gap = b''
@@ -802,8 +887,27 @@ def evaluate(ctx, cases):
                 w.nsec = nsec
                 w.h_model = b2.add(['model_read_dwarf_file', le, is64, em, w.img, e_shoff, nsec if nsec < 0xff00 else 0,
                                     descs, 1 + k0, relocate])
+            elif kind == 'apply_link':
+                import binascii
+                crc = binascii.crc32(w.img) & 0xffffffff
+                if shape == 'badcrc':
+                    crc ^= 0x10
+                link = fname.encode() + b'\0'
+                link += b'\0' * ((-len(link)) % 4) + _pk(le, 'I', crc)
+                own = bytes((i * 29 + 5) % 256 for i in range(11))
+                msecs = [dict(name='.text', type=1, data=b'\x90' * 8), dict(name='.gnu_debuglink', type=1, data=link)]
+                if shape == 'own':
+                    msecs.insert(1, dict(name='.debug_info', type=1, data=own))
+                    msecs.append(dict(name='.debug_abbrev', type=1, data=b'\x01\x11\x00\x00\x00\x00'))
+                w.main, moffs = build_elf(le, is64, em, 2, msecs, gap=b'\x07')
+                mfull = [dict(name='', type=0, data=b'')] + msecs
+                mdescs = [_sec_desc(s['name'], s['type'], moffs[i], len(s['data']), 0, 0) for i, s in enumerate(mfull)]
+                w.own = own
+                w.h_model = b2.add(['model_dwarf_link', True, shape == 'own', shape != 'badcrc',
+                                    [le, is64, em, w.img, descs, 1], [le, is64, em, w.main, mdescs, 2], relocate])
             elif kind == 'apply':
                 w.h_model = b2.add(['model_read_dwarf', le, is64, em, w.img, descs, 1, relocate])
+                w.h_nofam = b2.add(['model_no_family', em]) if em not in SUP else None
             else:
                 w.h_model = b2.add(['model_dwarf_seq', le, is64, em, w.img, descs, 1, [c[0] for c in calls]])
             # the relocation section the gABI designates: type REL/RELA with sh_info = index of .debug_info
@@ -814,8 +918,8 @@ def evaluate(ctx, cases):
                               all(b1[h] == 1 for h in w.h_rwf))
             w.target = target[0] if len(target) == 1 else None
             if w.target is not None and relocate:
-                w.h_spec = b2.add(['spec_apply', le, is64, em, w.target[2], symvals, data, w.target[3]])
-                w.h_wf = b2.add(['apply_wf', is64, em, w.target[2], symvals, data, w.target[3]])
+                w.h_spec = b2.add(['spec_apply', le, is64, em, w.target[2], _sym_vals(symvals), data, w.target[3]])
+                w.h_wf = b2.add(['apply_wf', is64, em, w.target[2], _sym_vals(symvals), data, w.target[3]])
             else:
                 w.h_spec = w.h_wf = None
         elif kind == 'dyn':
@@ -846,6 +950,8 @@ def evaluate(ctx, cases):
         elif kind == 'apply_many':
             _eval_apply_many(ctx, w, b1, b2)
             w.img = None
+        elif kind == 'apply_link':
+            _eval_apply_link(ctx, w, b1, b2)
         elif kind == 'dyn':
             _eval_dyn(ctx, w, b1, b2, drv)
         elif kind == 'dyn_overlap':
@@ -1030,6 +1136,11 @@ def _eval_apply(ctx, w, b1, b2):
     else:
         spec = ok(data)
         wf = True
+    if em not in SUP:
+        # a machine outside the property's list for which the library has no recipe table at all: nothing is
+        # supported, so every relocation must be rejected with the relocation error (spec_apply says so), and
+        # nothing happens when there is nothing to apply
+        wf = b2[w.h_nofam] == 1
     in_domain = bool(w.conventional and wf)
     ents = w.target[3] if w.target else []
     key = None
@@ -1040,15 +1151,45 @@ def _eval_apply(ctx, w, b1, b2):
         key = 'mips-n32-r_mips_64-keyerror'               # ELF32 MIPS RELA R_MIPS_64: KeyError('r_type2')
     elif is_err(spec) or is_err(impl):
         tag = (spec[1] if is_err(spec) else 'ok') + '/' + (impl[1] if is_err(impl) else 'ok')
-        key = 'apply-error-class-%s-em%d' % (tag, em)
+        key = 'apply-error-class-%s-em%d' % (tag, em) if em in SUP else 'apply-unsupported-machine-%s' % tag
     elif impl != spec:
         key = 'mips-rela-adds-inplace' if (em == 8 and t_rela) else 'apply-value-em%d-%s' % (em, 'rela' if t_rela else 'rel')
-    ctx.bump('machine', em)
+    ctx.bump('machine', em if em in SUP else 'other')
+    if any(not isinstance(v, int) for v in symvals):
+        ctx.bump('typed_symbols', 'arm' if em == 40 else 'other')
     ctx.bump('relocs', len(ents))
     ctx.bump('apply_outcome', spec[1] if is_err(spec) else 'ok')
     ctx.bump('relocate', int(relocate))
     ctx.record('apply', w.a, impl=impl, spec=spec, model=model, in_domain=in_domain,
                nontrivial=len(ents) > 0 or is_err(spec), key=key)
+
+
+def _eval_apply_link(ctx, w, b1, b2):
+    em, le, is64, relocate, data, symvals, rsecs, shape, fname = w.a
+    asked = []
+    def loader(name):
+        asked.append(name)
+        return io.BytesIO(w.img)
+    def run():
+        from elftools.elf.elffile import ELFFile
+        elf = ELFFile(io.BytesIO(w.main), stream_loader=loader)
+        di = elf.get_dwarf_info(relocate_dwarf_sections=relocate)
+        return ok(di.debug_info_sec.stream.getvalue())
+    impl = impl_call(run)
+    if shape == 'own':
+        spec = ok(w.own)
+    elif shape == 'badcrc':
+        spec = ['err', 'ELFError']
+    elif relocate:
+        spec = b2[w.h_spec]
+    else:
+        spec = ok(data)
+    wf = b2[w.h_wf] == 1 if w.h_wf is not None else True
+    if shape == 'linked':
+        assert asked in ([fname], [fname.encode()]), asked
+    ctx.bump('debuglink', '%s-%s' % (shape, 'T' if relocate else 'F'))
+    ctx.record('apply_link', w.a, impl=impl, spec=spec, model=b2[w.h_model],
+               in_domain=bool(w.conventional and wf and shape != 'badcrc'), nontrivial=True, key='debuglink-relocate-flag')
 
 
 def _eval_apply_many(ctx, w, b1, b2):
